@@ -13,8 +13,8 @@
    more permissive than the client about H2/H3. *)
 EXTENDS Integers, Sequences, TLC, Json, IOUtils
 Rec == ndJsonDeserialize(IOEnv.TRACE)
-VARIABLES l, run, cfg, viol, hits, nruns, cfgd, leaseEnd, reqXid, reqSent, goodAck, lastSol, rebound, renewTried, strictLease
-vars == <<l, run, cfg, viol, hits, nruns, cfgd, leaseEnd, reqXid, reqSent, goodAck, lastSol, rebound, renewTried, strictLease>>
+VARIABLES l, run, cfg, viol, hits, nruns, cfgd, leaseEnd, reqXid, reqSent, goodAck, lastSol, rebound, renewTried, strictLease, lastArp
+vars == <<l, run, cfg, viol, hits, nruns, cfgd, leaseEnd, reqXid, reqSent, goodAck, lastSol, rebound, renewTried, strictLease, lastArp>>
 Rules == {"H1", "H2", "H3", "H4", "H5", "Q1", "Q2", "PANIC"}
 Add(v, x) == IF Len(v) >= 24 THEN v ELSE Append(v, x)
 RECURSIVE AddAll(_, _)
@@ -23,7 +23,7 @@ Flush == viol = <<>> \/ PrintT(<<"RUNVIOL", ToJson([run |-> run, viol |-> viol])
 Min(a, b) == IF a < b THEN a ELSE b
 Init == /\ l = 1 /\ run = -1 /\ cfg = [x |-> 0] /\ viol = <<>> /\ hits = [r \in Rules |-> 0] /\ nruns = 0
         /\ cfgd = FALSE /\ leaseEnd = -1 /\ reqXid = <<-1, -1>> /\ reqSent = FALSE /\ goodAck = FALSE /\ lastSol = 0 /\ rebound = FALSE
-        /\ renewTried = FALSE /\ strictLease = FALSE
+        /\ renewTried = FALSE /\ strictLease = FALSE /\ lastArp = -1
 IsDhcp(m) == m.k = "dhcp"
 ArpOut(out) == \E i \in 1..Len(out) : out[i].k = "arp"
 LeaseMs(m) == LET s == IF m.lease = -1 THEN 120 ELSE m.lease
@@ -61,17 +61,22 @@ Step ==
             /\ Flush
             /\ run' = r.run /\ cfg' = r.cfg /\ viol' = <<>> /\ nruns' = nruns + 1 /\ hits' = hits
             /\ cfgd' = FALSE /\ leaseEnd' = -1 /\ reqXid' = <<-1, -1>> /\ reqSent' = FALSE /\ goodAck' = FALSE /\ lastSol' = 0 /\ rebound' = FALSE
-            /\ renewTried' = FALSE /\ strictLease' = FALSE
+            /\ renewTried' = FALSE /\ strictLease' = FALSE /\ lastArp' = -1
        [] r.ev = "poll" ->
             LET rxa == RxFold(r.rx, [good |-> FALSE, until |-> leaseEnd, now |-> r.now, strict |-> strictLease], reqXid, reqSent)
                 txa == TxFold(r.out, [xid |-> reqXid, sent |-> reqSent, sol |-> FALSE, renew |-> FALSE, rebind |-> IF rxa.good THEN FALSE ELSE rebound, badorder |-> FALSE])
                 ga == goodAck \/ rxa.good
                 cfgd2 == IF r.event = "configured" THEN TRUE ELSE IF r.event = "deconfigured" THEN FALSE ELSE cfgd
+                \* "discovery silence" is a reading of a late poll only while the client is really waiting for the discovery of its
+                \* server: an ARP request of its own within the last two seconds (one second of silence after a request that may
+                \* itself have been held back for one second)
+                la2 == IF ArpOut(r.out) THEN r.now ELSE lastArp
+                ds == la2 # -1 /\ r.now - la2 <= 2000
                 h1 == IF r.event = "configured" /\ ~ga THEN << <<l, "H1", r.now, r.addr>> >> ELSE <<>>
                 \* (a poll up to 1 s after expiry that does not act is the discovery-silence finding of H3: while the renewing client
                 \* waits for the discovery of its server its dispatch is not run at all)
-                h2 == IF cfgd2 /\ rxa.until # -1 /\ r.now >= rxa.until THEN << <<l, "H2", r.now, rxa.until, IF r.now - rxa.until <= 1000 THEN "discovery-silence" ELSE "other">> >> ELSE <<>>
-                h3 == IF cfgd2 /\ rxa.until # -1 /\ (r.pa = -1 \/ r.pa > rxa.until) THEN << <<l, "H3", r.pa, rxa.until, IF r.pa # -1 /\ r.pa - rxa.until <= 1000 THEN "discovery-silence" ELSE "other">> >> ELSE <<>>
+                h2 == IF cfgd2 /\ rxa.until # -1 /\ r.now >= rxa.until THEN << <<l, "H2", r.now, rxa.until, IF r.now - rxa.until <= 1000 /\ ds THEN "discovery-silence" ELSE "other">> >> ELSE <<>>
+                h3 == IF cfgd2 /\ rxa.until # -1 /\ (r.pa = -1 \/ r.pa > rxa.until) THEN << <<l, "H3", r.pa, rxa.until, IF r.pa # -1 /\ r.pa - rxa.until <= 1000 /\ ds THEN "discovery-silence" ELSE "other">> >> ELSE <<>>
                 h4 == IF txa.badorder THEN << <<l, "H4", "renew-after-rebind", r.now>> >>
                       \* (frames are emitted after the poll's ingress: an ACK that arrives in this very poll has already extended the lease)
                       ELSE IF cfgd /\ rxa.until # -1 /\ (txa.renew \/ (txa.rebind /\ ~rebound)) /\ r.now >= rxa.until THEN << <<l, "H4", "after-expiry", r.now>> >> ELSE <<>>
@@ -87,7 +92,7 @@ Step ==
                 early == "probe" \in DOMAIN r /\ r.probe /\ r.rx = <<>> /\ (r.deadline = -1 \/ r.now < r.deadline)
                 q1 == IF early /\ (r.out # <<>> \/ r.event # "none")
                       THEN << <<l, "Q1", r.now, r.deadline, r.event,
-                                IF cfgd /\ leaseEnd # -1 /\ r.now >= leaseEnd /\ r.deadline # -1 /\ r.deadline - leaseEnd <= 1000 THEN "discovery-silence" ELSE "other">> >> ELSE <<>>
+                                IF cfgd /\ leaseEnd # -1 /\ r.now >= leaseEnd /\ r.deadline # -1 /\ r.deadline - leaseEnd <= 1000 /\ ds THEN "discovery-silence" ELSE "other">> >> ELSE <<>>
                 q2 == IF r.rx = <<>> /\ r.out = <<>> /\ r.pa # -1 /\ r.pa <= r.now THEN << <<l, "Q2", r.now, r.pa, IF r.pa = 0 THEN "reset-pass" ELSE "other">> >> ELSE <<>>
             IN /\ viol' = AddAll(viol, h1 \o h2 \o h3 \o h4 \o h4b \o h5 \o q1 \o q2)
                /\ cfgd' = cfgd2
@@ -99,14 +104,15 @@ Step ==
                /\ lastSol' = IF txa.sol THEN r.now ELSE lastSol
                /\ renewTried' = IF r.event # "none" THEN FALSE ELSE tried
                /\ strictLease' = rxa.strict
+               /\ lastArp' = la2
                /\ hits' = [hits EXCEPT !["H1"] = @ + (IF r.event = "configured" THEN 1 ELSE 0), !["H2"] = @ + (IF cfgd2 THEN 1 ELSE 0),
                                        !["H3"] = @ + (IF cfgd2 THEN 1 ELSE 0), !["H4"] = @ + (IF txa.renew \/ txa.rebind THEN 1 ELSE 0),
                                        !["H5"] = @ + (IF cfgd2 THEN 0 ELSE 1), !["Q2"] = @ + (IF r.rx = <<>> /\ r.out = <<>> THEN 1 ELSE 0), !["Q1"] = @ + (IF early THEN 1 ELSE 0)]
                /\ UNCHANGED <<run, cfg, nruns>>
        [] r.ev = "panic" ->
             /\ viol' = Add(viol, <<l, "PANIC", r.msg>>) /\ hits' = [hits EXCEPT !["PANIC"] = @ + 1]
-            /\ UNCHANGED <<run, cfg, nruns, cfgd, leaseEnd, reqXid, reqSent, goodAck, lastSol, rebound, renewTried, strictLease>>
-       [] OTHER -> UNCHANGED <<run, cfg, viol, hits, nruns, cfgd, leaseEnd, reqXid, reqSent, goodAck, lastSol, rebound, renewTried, strictLease>>
+            /\ UNCHANGED <<run, cfg, nruns, cfgd, leaseEnd, reqXid, reqSent, goodAck, lastSol, rebound, renewTried, strictLease, lastArp>>
+       [] OTHER -> UNCHANGED <<run, cfg, viol, hits, nruns, cfgd, leaseEnd, reqXid, reqSent, goodAck, lastSol, rebound, renewTried, strictLease, lastArp>>
 Spec == Init /\ [][Step]_vars
 Final == l = Len(Rec) + 1 => /\ Flush
                              /\ PrintT(<<"FINAL", ToJson([events |-> Len(Rec), runs |-> nruns, hits |-> hits])>>)
